@@ -214,6 +214,13 @@ def r7_rows_describe_their_entity(ctx, res):
     entity_fields_from_row(ctx, res, prefix='navigation-entity-fields')
 
 
+def r8_extension_rows_hang_on_the_named_base(ctx, res):
+    """navigation from an extension's sense to the entry / synset of its base is by the rows stored at add time: the base is the
+    lexicon <Extends> names by id AND version (C05-R13) - resolved by id alone the external ids are mapped to another installed
+    version, and sense.word().senses() no longer contains the sense."""
+    from .c05 import r13_lexicon_lookups_by_id_and_version
+    r13_lexicon_lookups_by_id_and_version(ctx, res)
+
 RULES = [
     ('C10-R1', r1_navigation, 30),
     ('C10-R2', r2_eq_hash, 12),
@@ -222,4 +229,5 @@ RULES = [
     ('C10-R5', r5_scope_family, 3),
     ('C10-R6', r6_images, 3),
     ('C10-R7', r7_rows_describe_their_entity, 40),
+    ('C10-R8', r8_extension_rows_hang_on_the_named_base, 2),
 ]
